@@ -36,7 +36,7 @@ class Stores(V.Family):
                       sim=("StoresMC.tla", "Stores_sim.cfg", 40, 26), sim_keep=60, nrand=60, shards=6),
         "thorough": dict(mc=[("StoresMC.tla", "Stores_thorough.cfg"), ("StoresMC.tla", "Stores_thorough_aud.cfg"),
                              ("StoresMC.tla", "Stores_thorough_est.cfg"), ("StoresMC.tla", "Stores_thorough_env.cfg"),
-                             ("StoresMC.tla", "Stores_thorough_idcfg.cfg")], mc_timeout=3000,
+                             ("StoresMC.tla", "Stores_thorough_id.cfg"), ("StoresMC.tla", "Stores_thorough_cfg.cfg")], mc_timeout=3000,
                          sim=("StoresMC.tla", "Stores_sim.cfg", 700, 26), sim_keep=1200, nrand=1500, shards=14),
     }
 
@@ -112,5 +112,9 @@ def run(pid, tier, seed, replay=None):
     if os.environ.get("VERIF_STORES_FAST"):
         # development aid (mutation runs): skip S1/S2, keep traps + random scenarios + S4; writes no evidence worth keeping
         F.tiers = {t: dict(c, mc=[], sim=None) for t, c in F.tiers.items()}
+    if os.environ.get("VERIF_STORES_DEV"):
+        # deviation switches of the monitor's Spec (binding only, never the verdict), e.g. after notes/reports/stores-fix-1.diff:
+        #   VERIF_STORES_DEV='{"PrefixAlias", "Exact:aud.listByEpoch", "Exact:est.list"}'
+        F.monitor_constants = {"Dev": os.environ["VERIF_STORES_DEV"]}
     V.spec_dir()      # populate the scratch copy of the specs before the monitor threads race for it
     return V.run_family(F, pid, tier, seed, replay)
